@@ -269,6 +269,13 @@ class Builder:
           x = self.rat(node.left)
           res = self._residue(x, int(n))
           return res if isinstance(node.op, ast.Mod) else (x - res) / Rat(Poly.const(n))
+      if isinstance(node.op, ast.LShift):
+        # x << k  ==  x * 2 ** k  (written with the same atom a non-constant `2 ** k` gets)
+        k = self.rat(node.right)
+        kc = k.const_value()
+        if kc is not None and kc.denominator == 1 and 0 <= kc <= 64:
+          return self.rat(node.left) * Rat(Poly.const(2 ** int(kc)))
+        return self.rat(node.left) * Rat(Poly.atom('(%r ** %r)' % (Rat(Poly.const(2)), k)))
       if isinstance(node.op, ast.Pow):
         e = self.rat(node.right).const_value()
         if e is not None and e.denominator == 1 and 0 <= e <= 6:
